@@ -589,6 +589,9 @@ def c10_configs(big):
         Config("d6", ("A",), {"s1": [stmt("dt", "A"), stmt("ct", "A")], "s2": [stmt("ins", "A", {9}), stmt("sel", "A")]}, {"A": [{1}]}, passes=0),
         # (programs never insert a key that may still exist: rows are modelled as distinct keys)
         Config("d8", ("A",), {"s1": [stmt("del", "A", {1}), stmt("ins", "A", {8})], "s2": [stmt("del", "A", {1, 2})]}, A1, passes=1),
+        # two sessions writing two tables at the same time (ids, directories and caches are shared by all tables)
+        Config("d13", ("A", "B"), {"s1": [stmt("ins", "A", {7}), stmt("sel", "A"), stmt("del", "A", {7})],
+                                   "s2": [stmt("ins", "B", {8}), stmt("sel", "B")]}, {"A": [{1}], "B": [{4}]}, passes=0),
     ]
     if big:
         cfgs += [
